@@ -39,7 +39,7 @@ theorem C01_star_expansion (e : Env) :
     evalItems [.star] e = .ok (e.a ++ e.b.getD [], none) ∧
     evalItems [.starA] e = .ok (e.a, none) ∧
     evalItems [.starB] e = .ok (e.b.getD [], none) := by
-  refine ⟨?_, ?_, ?_⟩ <;> simp [evalItems, bind, Except.bind, pure, Except.pure]
+  refine ⟨?_, ?_, ?_⟩ <;> simp [evalItems, evalItemsFrom, bind, Except.bind, pure, Except.pure]
 
 /-- aN / a[N] is the N-th field, None when the record is shorter -/
 theorem C01_field_or_none (r : Row) (i : Nat) :
@@ -52,6 +52,11 @@ theorem C01_field_or_none (r : Row) (i : Nat) :
 /-- `* EXCEPT cols` keeps exactly the fields whose index is not listed, in order -/
 theorem C01_except_drops_exactly (src : Row) (cols : List Nat) :
     selectExcept src cols = (src.zipIdx.filter (fun p => !cols.contains p.2)).map (·.1) := rfl
+
+/-- only one UNNEST per query: the second one is refused as soon as it is reached -/
+theorem C01_second_unnest_refused (f g : Ex (List Atom)) (e : Env) (l1 l2 : List Atom) (h1 : f e = .ok l1) (h2 : g e = .ok l2) :
+    evalItems [.unnest f, .unnest g] e = .error .unnestTwice := by
+  simp [evalItems, evalItemsFrom, h1, h2, bind, Except.bind, pure, Except.pure]
 
 /-! non-vacuity: a ragged table, a WHERE, a star and an UNNEST -/
 example :
